@@ -46,16 +46,21 @@ struct Conn {
 	size_t s2c_arrived = 0;     // prefix that has arrived (readable or already read)
 	size_t s2c_read = 0;        // prefix the client has taken with recv()
 	std::vector<std::pair<uint64_t, size_t>> arrive_log; // (seq, cumulative arrived)
+	std::vector<std::pair<uint64_t, size_t>> recv_log;   // (seq, cumulative taken by recv)
+	int64_t opened_ms = 0;      // wall clock at connect()
+	uint64_t connect_seq = 0;
 	uint64_t opened_seq = 0, established_seq = 0, ended_seq = 0; // ended: FIN/RST visible or client close
 	std::string end_kind;       // "fin", "rst", "refused", "clientclose"
 	// reassembly-buffer discipline (async reader)
 	const unsigned char *recv_base = nullptr;
 	bool discipline_ok = true;
+	bool had_partial_send = false;
 	size_t readable() const { return s2c_arrived - s2c_read; }
 	size_t inflight() const { return s2c_all.size() - s2c_arrived; }
 	size_t srv_unread() const { return c2s.size() - c2s_read; }
 	uint64_t seq_when_arrived(size_t cum) const; // seq at which the first `cum` bytes had all arrived (0 = not yet)
 	uint64_t seq_when_sent(size_t cum) const;
+	uint64_t seq_when_read(size_t cum) const;
 };
 
 // what the blocking hook is asked to do
@@ -65,6 +70,7 @@ struct Net {
 	std::vector<NetEndpoint> eps;
 	std::vector<std::unique_ptr<Conn>> conns;
 	std::vector<std::string> resolved;    // "host:port" strings handed to getaddrinfo
+	std::vector<std::pair<uint64_t, int>> dnsfail_log; // (seq, ep) of injected resolution failures
 	// Called when a blocking socket call cannot complete. Must return true if it changed the
 	// world so that retrying makes sense; false = nothing will ever happen (the call times out).
 	std::function<bool(Conn &, BlockWhat)> on_block;
